@@ -74,3 +74,10 @@ Proof.
   cbv zeta. split; [auto|split; [|auto]].
   intros x' Hx'. eapply certificate_optimal; eauto. rewrite E1. auto.
 Qed.
+
+Lemma certificate_optimal_both n m k c Aub bub Aeq beq x lam :
+  primal_feasible n m k Aub bub Aeq beq x -> dual_feasible n m k c Aub Aeq lam ->
+  dotn n c x == dual_obj m k bub beq lam ->
+  (forall x', primal_feasible n m k Aub bub Aeq beq x' -> dotn n c x' <= dotn n c x) /\
+  (forall lam', dual_feasible n m k c Aub Aeq lam' -> dual_obj m k bub beq lam <= dual_obj m k bub beq lam').
+Proof. intros. split; [eapply certificate_optimal|eapply certificate_dual_optimal]; eauto. Qed.
